@@ -39,7 +39,6 @@ pub open spec fn acct<'a>(v: OperationTransformVisitor<'a>, v2: OperationTransfo
 }
 // C04: `c` is a call of a configured method in one of the receiver shapes the statement lists (fixed by unit U5's contracts);
 // the chain contains `recv?.m(..)` of a configured method that still has to be lowered (unit U7)
-pub uninterp spec fn pending_call(c: CallExpr, csi: CsiMethods) -> bool;
 pub uninterp spec fn pending_optchain(e: Expr, csi: CsiMethods) -> bool;
 // C04 vocabulary.  `children_done(e)`: every enabled operation strictly below the root of `e` has been given to the
 // visitor (abstract: its meaning is fixed by the traversal contracts below and the bridge axioms in contracts/opv.spec).
